@@ -90,7 +90,8 @@ def obligations(prop, thorough):
         res["ok"] = False
         res["failed"].append("missing module " + mod)
         return res
-    rc, log = pl.lake_build([mod, "GruleModel.Codec", "GruleModel.Gen.ArithTables"])
+    # the property module and everything the driver (Main.lean) imports
+    rc, log = pl.lake_build([mod, "GruleModel.Codec", "GruleModel.Gen.ArithTables", "GruleModel.Catalog", "GruleModel.Syntax.Build", "GruleModel.Json.Sem"])
     res["log"] = log[-6000:]
     if rc != 0:
         res["ok"] = False
